@@ -152,6 +152,7 @@ func checkC01() func(w *SketchWorld, slot int) []mc.Fail {
 		xs := sortedValues(ent)
 		qs := quantilesFor(n)
 		batch, berr := q.GetValuesAtQuantiles(qs)
+		dbatch, derr := descendingBatch(q, qs)
 		for qi, p := range qs {
 			y, err := q.GetValueAtQuantile(p)
 			if err != nil {
@@ -160,6 +161,10 @@ func checkC01() func(w *SketchWorld, slot int) []mc.Fail {
 			}
 			if berr != nil || math.Float64bits(batch[qi]) != math.Float64bits(y) {
 				fails = append(fails, mc.Fail{Clause: "C01.batch", Detail: fmt.Sprintf("GetValuesAtQuantiles differs from GetValueAtQuantile at q=%v: %v vs %v (err %v)", p, batch, y, berr)})
+				return
+			}
+			if derr != nil || math.Float64bits(dbatch[qi]) != math.Float64bits(y) {
+				fails = append(fails, mc.Fail{Clause: "C01.batch", Detail: fmt.Sprintf("GetValuesAtQuantiles asked in descending order differs from GetValueAtQuantile at q=%v: %v vs %v (err %v)", p, dbatch, y, derr)})
 				return
 			}
 			lo, hi := exactRanks(p, float64(n-1))
@@ -193,6 +198,23 @@ func checkC01() func(w *SketchWorld, slot int) []mc.Fail {
 		}
 		return
 	}
+}
+
+// descendingBatch asks the quantiles in descending order in one call and returns
+// the answers re-ordered to match qs (a batch may be given in any order).
+func descendingBatch(q Sketch, qs []float64) ([]float64, error) {
+	rev := make([]float64, len(qs))
+	for i, p := range qs {
+		rev[len(qs)-1-i] = p
+	}
+	out, err := q.GetValuesAtQuantiles(rev)
+	if err != nil || len(out) != len(qs) {
+		return nil, fmt.Errorf("descending batch: %d answers, err=%v", len(out), err)
+	}
+	for i, j := 0, len(out)-1; i < j; i, j = i+1, j-1 {
+		out[i], out[j] = out[j], out[i]
+	}
+	return out, nil
 }
 
 // sameBin: y lies in the bin whose representative is rep (same sign, same
@@ -324,6 +346,7 @@ func checkC12() func(w *SketchWorld, slot int) []mc.Fail {
 		// quantiles: monotone, inside [min,max], batch == singles
 		qs := []float64{0, 5e-324, 0.01, 0.1, 0.25, 1.0 / 3, 0.5, 2.0 / 3, 0.75, 0.9, 0.99, 1 - math.Ldexp(1, -53), 1}
 		batch, berr := q.GetValuesAtQuantiles(qs)
+		dbatch, derr := descendingBatch(q, qs)
 		prev := math.Inf(-1)
 		for i, p := range qs {
 			y, err := q.GetValueAtQuantile(p)
@@ -333,6 +356,10 @@ func checkC12() func(w *SketchWorld, slot int) []mc.Fail {
 			}
 			if berr != nil || math.Float64bits(batch[i]) != math.Float64bits(y) {
 				fail("C12.batch", "batch answer at q=%v is %v, single answer %v (err=%v)", p, batch, y, berr)
+				return
+			}
+			if derr != nil || math.Float64bits(dbatch[i]) != math.Float64bits(y) {
+				fail("C12.batch", "batch asked in descending order answers %v at q=%v, single answer %v (err=%v)", dbatch, p, y, derr)
 				return
 			}
 			if y < prev {
